@@ -497,13 +497,21 @@ Spec == Init /\ [][Next]_vars
 \* ---- theorems of the semantics itself (action properties checked by TLC on every explored step; a failure is a defect of
 \* this specification, reported as exit 2, never as a verdict about the implementation)
 Owner(c) == IF c.parent = 0 THEN {c.fr} ELSE {c.fr, cors[c.parent].fr}
+\* identity of values and bindings that TLC can always evaluate (its own = refuses to compare e.g. a string with an integer
+\* held in the same field of two records); function bodies are compared by their printed form
+RECURSIVE IdV(_, _)
+IdV(a, b) == IF a.k # b.k THEN FALSE
+             ELSE IF a.k = "arr" THEN Len(a.v) = Len(b.v) /\ \A i \in 1..Len(a.v) : IdV(a.v[i], b.v[i])
+             ELSE IF a.k = "fn" THEN a.env = b.env /\ a.alt = b.alt /\ a.b = b.b /\ ToString(a.f) = ToString(b.f)
+             ELSE a = b
+IdBind(f, g) == DOMAIN f = DOMAIN g /\ \A n \in DOMAIN f : IdV(f[n], g[n])
 \* C04: only code at top level (frame 0), or a top-level loop receiving a yielded value, changes a global binding
-GlobalsOnlyAtTopLevel == [][(globals' # globals /\ status = "run") => (0 \in Owner(cors[cur]))]_vars
+GlobalsOnlyAtTopLevel == [][(status = "run" /\ ~IdBind(globals', globals)) => (0 \in Owner(cors[cur]))]_vars
 \* C04/C18: an activation frame is changed only by the activation it belongs to (or by the loop owner receiving a yielded value);
 \* frames are never reclaimed or renumbered
 FrameOnlyByOwner == [][status = "run" =>
                         /\ Len(heap') >= Len(heap)
-                        /\ \A f \in 1..Len(heap) : heap'[f] # heap[f] => f \in Owner(cors[cur])]_vars
+                        /\ \A f \in 1..Len(heap) : ~IdBind(heap'[f], heap[f]) => f \in Owner(cors[cur])]_vars
 \* C01: within a statement output only grows
 OutputOnlyGrows == [][(status = "run" /\ status' = "run") => (Len(out') >= Len(out) /\ SubSeq(out', 1, Len(out)) = out)]_vars
 
